@@ -495,35 +495,4 @@ theorem read31_noPanic (b : Bytes) (pos : Nat) : (read31 b pos).noPanic := by
   refine bind_noPanic (coverageRead_noPanic _ _) (fun cv _ => ?_)
   exact bind_noPanic (prune_noPanic _ _ _ _) (fun p _ => pure_noPanic _)
 
-/-! ## readGposSubtable -/
-
-theorem dispatchKey_noPanic (b : Bytes) (pos key : Nat) : (dispatchKey b pos key).noPanic := by
-  unfold dispatchKey
-  split
-  · exact bind_noPanic (read11_noPanic _ _) (fun r _ => pure_noPanic _)
-  split
-  · exact bind_noPanic (read12_noPanic _ _) (fun r _ => pure_noPanic _)
-  split
-  · exact bind_noPanic (read21_noPanic _ _) (fun r _ => pure_noPanic _)
-  split
-  · exact bind_noPanic (read22_noPanic _ _) (fun r _ => pure_noPanic _)
-  split
-  · exact bind_noPanic (read31_noPanic _ _) (fun r _ => pure_noPanic _)
-  split <;> exact True.intro
-
-/-- `readGposSubtable` (repaired; readers of lookup types 1–3; a key of another reader is
-`err "other"`) never panics: all bytes, all positions, every lookup type -/
-theorem readSubtable_noPanic (b : Bytes) (pos tp : Nat) : (readSubtable b pos tp).noPanic := by
-  unfold readSubtable
-  refine bind_noPanic (readU16_noPanic _ _ _) (fun format _ => ?_)
-  dsimp only
-  split
-  · exact True.intro
-  · exact dispatchKey_noPanic _ _ _
-
-/-- the dispatcher before the repair did not panic either -/
-theorem readSubtableOld_noPanic (b : Bytes) (pos tp : Nat) : (readSubtableOld b pos tp).noPanic := by
-  unfold readSubtableOld
-  exact bind_noPanic (readU16_noPanic _ _ _) (fun format _ => dispatchKey_noPanic _ _ _)
-
 end SfntV.Total.GposSub
